@@ -421,3 +421,22 @@ var join = h.Define(P, "join", func(t *rapid.T) JoinCase {
 }, runJoin)
 
 func TestJoin(t *testing.T) { join.Check(t) }
+
+// FuzzCommands: coverage-guided search over command strings (parser grammar) and pairs (coverage order).
+func FuzzCommands(f *testing.F) {
+	for _, s := range [][2]string{{"/", "/a"}, {"/a", "/a/b"}, {"/foo", "/foobar"}, {"/a//b", "/a/b"}, {"/σ", "/ς"}, {"/A", "/a"}, {"/a/", "/a"}, {"", "/"}} {
+		f.Add(s[0], s[1])
+	}
+	f.Fuzz(func(t *testing.T, a, b string) {
+		if len(a) > 64 || len(b) > 64 {
+			return
+		}
+		parse.One(t, ParseCase{S: a})
+		parse.One(t, ParseCase{S: b})
+		if va, sa := refValid(a); va && sa {
+			if vb, sb := refValid(b); vb && sb {
+				covers.One(t, CoversCase{A: a, B: b, C: a})
+			}
+		}
+	})
+}
